@@ -7,8 +7,9 @@ git merge --no-commit "ws-$name" || true
 git checkout HEAD -- MANIFEST.json tools/props_table.py tools/manifest_meta.py 2>/dev/null || true
 python3 tools/import_branch_props.py "ws-$name" "$@"
 python3 tools/extract_constants.py || true
+python3 tools/gen_ba_root.py
 python3 tools/gen_manifest.py
 git add -A
-git status --short | grep -E "^(UU|AA|DU|UD)" && { echo "UNRESOLVED CONFLICTS"; exit 1; }
+if grep -rn "^<<<<<<< \|^>>>>>>> " lean harness/src tools DESIGN.md known_findings.json AGENTS.md check >/dev/null; then echo "CONFLICT MARKERS LEFT"; grep -rln "^<<<<<<< " lean harness/src tools DESIGN.md known_findings.json; exit 1; fi
 git commit -qm "Merge ws-$name: $*"
 echo merged
